@@ -385,6 +385,25 @@ def case_taper_unsigned_abscissae(ctx, n, b0, b1):
             ctx.oblige("taper_is_zero_up_to_the_first_bound", core.eq(A[i], 0), detail={"i": i, "got": A[i]})
 
 
+def case_taper_infinite_abscissae(ctx):
+    """the soft threshold is 0 below and 1 above its bounds for EVERY abscissa, infinite ones included (the f-k filter evaluates it on
+    a velocity scale that is infinite where the wavenumber is zero)"""
+    import ibldsp.utils as u
+    b = [1.0, 2.0]
+    x1 = ctx.real("x1", 0, 3)
+    cosf = core.ufun("uf_cos", z3.RealSort(), z3.RealSort())
+    a = (x1 - b[0]) / (b[1] - b[0]) * np.pi
+    ctx.solver.add(z3.And(cosf(a.t) >= -1, cosf(a.t) <= 1))
+    x = arrays.mk([float("-inf"), x1, float("inf")], tag=np.dtype(float))
+    y = ctx.call("fcn_cosine", lambda: u.fcn_cosine(b)(x))
+    if not ctx.oblige("taper_keeps_the_shape", np.shape(y) == (3,), detail={"shape": str(np.shape(y))}):
+        return
+    Y = np.asarray(arrays._plain(y), dtype=object).ravel().tolist()
+    isnan = lambda v: bool(v != v) if not isinstance(v, core.Sym) else arrays.s_isnan(v)
+    ctx.oblige("taper_is_zero_at_minus_infinity", and_(not_(isnan(Y[0])), core.eq(Y[0], 0)) if isinstance(Y[0], core.Sym) else (Y[0] == 0), detail={"got": Y[0]})
+    ctx.oblige("taper_is_one_at_plus_infinity", and_(not_(isnan(Y[2])), core.eq(Y[2], 1)) if isinstance(Y[2], core.Sym) else (Y[2] == 1), detail={"got": Y[2]})
+
+
 def case_taper_pointwise(ctx, two_d):
     """the cosine soft threshold is a point-wise function of the value: abscissae in any order (and on a 2-D grid, as the
     f-k filter passes them) get 0 below the first bound, 1 above the second and the same value as when evaluated alone"""
@@ -532,6 +551,7 @@ def cases(tier):
     cs.append(Case("cosine_taper_pointwise_2d", "case_taper_pointwise", {"two_d": True}, timeout_s=900))
     cs.append(Case("bandpass_overlap_ns13", "case_bandpass", {"ns": 13, "corners": [1, 4, 2, 6], "two_d": False}, timeout_s=1500))       # a length with a large prime factor
     cs.append(Case("cosine_taper_integer_abscissae", "case_taper_integer_abscissae", {"n": 6}))
+    cs.append(Case("cosine_taper_infinite_abscissae", "case_taper_infinite_abscissae", {}))
     cs.append(Case("cosine_taper_unsigned_abscissae_2_5", "case_taper_unsigned_abscissae", {"n": 8, "b0": 2, "b1": 5}))
     for (p, q) in ((1, 2), (2, 5), (0, 3)) if tier == "thorough" else ((1, 2),):
         cs.append(Case(f"filters_{p}_{q}", "case_filters", {"b0n": p, "b1n": q}))
@@ -634,6 +654,17 @@ except Exception as e:
 alone = np.array([u.fcn_cosine(b)(np.array([v]))[0] for v in x.ravel()]).reshape(x.shape)
 print(x, y, alone)
 if np.shape(y) != x.shape or not np.allclose(y, alone, atol=1e-12): reproduced(f'fcn_cosine({{b}}) on {{x.tolist()}} gives {{np.asarray(y).tolist()}}, evaluated value by value {{alone.tolist()}}')
+not_reproduced()
+"""
+    if case.startswith("cosine_taper_infinite"):
+        return f"""
+import ibldsp.utils as u, warnings
+warnings.simplefilter('ignore')
+x1 = float(Fraction({str(m.get('x1', 0))!r}))
+with np.errstate(all='ignore'):
+    y = u.fcn_cosine([1.0, 2.0])(np.array([-np.inf, x1, np.inf]))
+print(y)
+if np.shape(y) != (3,) or not (y[0] == 0 and y[2] == 1): reproduced(f'fcn_cosine([1, 2]) at -inf / +inf gives {{y[0]}} / {{y[2]}} instead of 0 / 1')
 not_reproduced()
 """
     if case.startswith("cosine_taper_unsigned"):
